@@ -2,7 +2,7 @@ CONSTANTS
   NV = 3
   NSlots = 3
   MaxLen = 4
-  WithMove = FALSE
+  WithMove = TRUE
 INIT Init
 NEXT Next
 INVARIANT Emit
